@@ -19,6 +19,7 @@ func c14(c *Ctx) {
 	a := c.processor()
 	p, R := a.p, c.R
 	R.Trust("go/types + go/ssa", "time.Since / Duration arithmetic", "cleanup runs on the processor goroutine (C01.confine)")
+	loopVarRule(c, p, "C14.loopvar", pkgProcessor)
 	R.Assumption("tick timing, stalls between ticks and the real-time meaning of the retry budget are not decided")
 	fn := a.hCleanup
 	s := "next(range(p.state.vaaSignatures))#2"
